@@ -20,6 +20,9 @@ def decorate(case):
         t[3] = "err:" + ERR_KINDS[h % len(ERR_KINDS)]
     if (h >> 8) % 2:
         t = t[:4] + [("!s" if x == "!" else x) for x in t[4:]]
+    # the interrupted receive of the async connection is a future dropped while it waits for the transport, then a new receive
+    if t[1] == "a" and "!" in t[4:] and (h >> 11) % 2:
+        return " ".join([t[0], "ax"] + t[2:4] + [("!" if x == "!s" else x) for x in t[4:]])
     # every second response through command() / command_list() ("send followed by receive") instead of receive()
     if t[1] in ("a", "b") and t[3] != "err" and not t[3].startswith("err") and (h >> 9) % 4 in (1, 2):
         t[1] += "c" if (h >> 9) % 4 == 1 else "l"
